@@ -203,13 +203,28 @@ Section PrintNormal.
     NoDup (map fst el) -> merge_elements NM el = el.
   Proof. intros H. unfold merge_elements. apply (merge_fold_nodup el []). exact H. Qed.
 
-  (** *** a layout under which a parsed header is a date is a heading layout *)
-  Lemma parse_tokens_last l : forall c s y0 m0 d0 r,
-    parse_tokens (l ++ [Lit c]) s y0 m0 d0 = Some r -> exists s', s = s' ++ [c].
+  (** *** a layout under which a parsed header is a date is a heading layout, up to the spaces at
+      its end (a space of the layout matches the empty run at the end of the header) *)
+  Lemma parse_tokens_only_spaces sp : Forall (fun t => t = Lit 32) sp ->
+    forall s y0 m0 d0 r, parse_tokens sp s y0 m0 d0 = Some r -> Forall (fun c => c = 32) s.
   Proof.
-    induction l as [|t l IH]; intros c s y0 m0 d0 r H.
-    - cbn in H. destruct s as [|c' s']; [discriminate|]. destruct (N.eqb_spec c c') as [<-|]; [|discriminate].
-      destruct s'; [|discriminate]. exists []. reflexivity.
+    induction 1 as [|t sp -> _ IH]; intros s y0 m0 d0 r H.
+    - cbn in H. destruct s; [constructor|discriminate].
+    - apply parse_tokens_space_step in H. destruct H as [pre [s' [-> [Hpre H]]]].
+      apply Forall_app. split; [exact Hpre|]. apply (IH _ _ _ _ _ H).
+  Qed.
+
+  (** the text read under a layout whose last token before its final spaces is the literal [c]
+      (not a space) ends with [c] and spaces *)
+  Lemma parse_tokens_last l : forall c sp s y0 m0 d0 r,
+    c <> 32 -> Forall (fun t => t = Lit 32) sp ->
+    parse_tokens (l ++ Lit c :: sp) s y0 m0 d0 = Some r ->
+    exists s' post, s = s' ++ c :: post /\ Forall (fun x => x = 32) post.
+  Proof.
+    induction l as [|t l IH]; intros c sp s y0 m0 d0 r Hc Hsp H.
+    - cbn [app] in H. rewrite parse_tokens_lit in H by exact Hc.
+      destruct s as [|c' s']; [discriminate|]. destruct (N.eqb_spec c c') as [<-|]; [|discriminate].
+      exists [], s'. split; [reflexivity|]. apply (parse_tokens_only_spaces sp Hsp _ _ _ _ _ H).
     - cbn [app parse_tokens] in H.
       assert (Htd : forall n s v s', take_digits n s 0%Z = Some (v, s') -> exists p, s = p ++ s').
       { clear. intros n. generalize 0%Z. induction n as [|n IHn]; intros acc s v s' H.
@@ -218,31 +233,68 @@ Section PrintNormal.
           destruct (IHn _ _ _ _ H) as [p Hp]. exists (x :: p). cbn. f_equal. exact Hp. }
       destruct t as [| | |c0].
       + destruct (take_digits 4 s 0) as [[v s']|] eqn:E; [|discriminate].
-        destruct (Htd _ _ _ _ E) as [p ->]. destruct (IH _ _ _ _ _ _ H) as [s'' ->]. exists (p ++ s''). apply app_assoc.
+        destruct (Htd _ _ _ _ E) as [p ->]. destruct (IH _ _ _ _ _ _ _ Hc Hsp H) as [s'' [post [-> Hpost]]].
+        exists (p ++ s''), post. split; [rewrite <- app_assoc; reflexivity|exact Hpost].
       + destruct (take_digits 2 s 0) as [[v s']|] eqn:E; [|discriminate].
         destruct (_ && _)%bool; [|discriminate].
-        destruct (Htd _ _ _ _ E) as [p ->]. destruct (IH _ _ _ _ _ _ H) as [s'' ->]. exists (p ++ s''). apply app_assoc.
+        destruct (Htd _ _ _ _ E) as [p ->]. destruct (IH _ _ _ _ _ _ _ Hc Hsp H) as [s'' [post [-> Hpost]]].
+        exists (p ++ s''), post. split; [rewrite <- app_assoc; reflexivity|exact Hpost].
       + destruct (take_digits 2 s 0) as [[v s']|] eqn:E; [|discriminate].
         destruct (_ && _)%bool; [|discriminate].
-        destruct (Htd _ _ _ _ E) as [p ->]. destruct (IH _ _ _ _ _ _ H) as [s'' ->]. exists (p ++ s''). apply app_assoc.
-      + destruct s as [|c' s']; [discriminate|]. destruct (c0 =? c'); [|discriminate].
-        destruct (IH _ _ _ _ _ _ H) as [s'' ->]. exists (c' :: s''). reflexivity.
+        destruct (Htd _ _ _ _ E) as [p ->]. destruct (IH _ _ _ _ _ _ _ Hc Hsp H) as [s'' [post [-> Hpost]]].
+        exists (p ++ s''), post. split; [rewrite <- app_assoc; reflexivity|exact Hpost].
+      + revert H. destruct (N.eqb_spec c0 32) as [->|Hc0]; intros H.
+        * apply (parse_tokens_space_step (l ++ Lit c :: sp) s y0 m0 d0 r) in H.
+          destruct H as [pre [s1 [-> [_ H]]]].
+          destruct (IH _ _ _ _ _ _ _ Hc Hsp H) as [s'' [post [-> Hpost]]].
+          exists (pre ++ s''), post. split; [rewrite <- app_assoc; reflexivity|exact Hpost].
+        * destruct s as [|c' s']; [discriminate|]. destruct (c0 =? c'); [|discriminate].
+          destruct (IH _ _ _ _ _ _ _ Hc Hsp H) as [s'' [post [-> Hpost]]].
+          exists (c' :: s''), post. split; [reflexivity|exact Hpost].
   Qed.
 
   Lemma readable_heading_layout toks h cv :
-    forallb safe_tok toks = true -> header_ok h -> parse_date toks h = Some cv -> heading_layout toks = true.
+    forallb safe_tok toks = true -> header_ok h -> parse_date toks h = Some cv ->
+    heading_layout (layout_core toks) = true.
   Proof.
     intros Hsafe [Hf Hl]. unfold parse_date.
     destruct (parse_tokens toks h 0 1 1) as [r|] eqn:E; [|discriminate]. intros _.
-    unfold heading_layout. rewrite Hsafe. cbn [andb].
+    destruct (layout_core_split toks) as [sp [Et Hsp]].
+    pose proof (layout_core_last toks) as Hlast.
+    set (core := layout_core toks) in *. clearbody core. subst toks.
+    rewrite forallb_app in Hsafe. apply andb_true_iff in Hsafe. destruct Hsafe as [Hcs _].
+    unfold heading_layout. rewrite Hcs. cbn [andb].
     destruct (first_outside_inv _ _ Hf) as [h0 [h' [Eh Hh0]]].
+    assert (Hne : core <> []).
+    { intros ->. cbn [app] in E. apply (parse_tokens_only_spaces sp Hsp) in E. subst h.
+      inversion E; subst. vm_compute in Hh0. discriminate. }
     apply andb_true_iff. split.
-    - destruct toks as [|t toks]; [subst h; discriminate|]. destruct t as [| | |c]; try reflexivity.
-      cbn [edge_tok]. subst h. cbn in E. destruct (N.eqb_spec c h0) as [->|]; [|discriminate].
-      rewrite Hh0. reflexivity.
-    - destruct (snoc_cases toks) as [->|[l [t ->]]]; [subst h; discriminate|].
+    - destruct core as [|t core']; [congruence|]. destruct t as [| | |c]; try reflexivity.
+      cbn [edge_tok]. subst h. cbn [app] in E. destruct (N.eqb_spec c 32) as [->|Hc].
+      + rewrite parse_tokens_space_eq in E.
+        destruct (N.eqb_spec h0 32) as [->|]; [vm_compute in Hh0; discriminate|discriminate].
+      + rewrite parse_tokens_lit in E by exact Hc. destruct (N.eqb_spec c h0) as [->|]; [|discriminate].
+        rewrite Hh0. reflexivity.
+    - destruct (snoc_cases core) as [->|[l [t ->]]]; [congruence|].
       rewrite rev_app_distr. cbn [rev app]. destruct t as [| | |c]; try reflexivity. cbn [edge_tok].
-      destruct (parse_tokens_last _ _ _ _ _ _ _ E) as [s' Es]. rewrite Es in Hl.
-      rewrite last_outside_snoc in Hl. exact Hl.
+      pose proof (Hlast l c eq_refl) as Hc.
+      rewrite <- app_assoc in E. cbn [app] in E.
+      destruct (parse_tokens_last _ _ _ _ _ _ _ _ Hc Hsp E) as [s' [post [Es Hpost]]].
+      destruct (snoc_cases post) as [->|[p [x ->]]].
+      + rewrite Es in Hl. rewrite last_outside_snoc in Hl. exact Hl.
+      + exfalso. rewrite Es in Hl. apply Forall_app in Hpost. destruct Hpost as [_ Hx].
+        inversion Hx; subst.
+        replace (s' ++ c :: p ++ [32]) with ((s' ++ c :: p) ++ [32]) in Hl by (rewrite <- app_assoc; reflexivity).
+        rewrite last_outside_snoc in Hl. vm_compute in Hl. discriminate.
   Qed.
 End PrintNormal.
+
+(** the final spaces matter: a heading read under a layout that is not a heading layout itself
+    (the space at the end of the layout matches the empty run at the end of the heading) *)
+Example readable_layout_trailing_space :
+  let toks := [Y4; Lit 47; M2; Lit 47; D2; Lit 32] in
+  tokenize (b "2006/01/02 ") = Some toks
+  /\ forallb safe_tok toks = true /\ header_ok (b "2021/01/01")
+  /\ parse_date toks (b "2021/01/01") = Some (2021, 1, 1)%Z
+  /\ heading_layout toks = false /\ heading_layout (layout_core toks) = true.
+Proof. vm_compute. repeat split. Qed.
